@@ -116,6 +116,8 @@ def grammar_lemmas(w):
         lambda w, c, M, g, x, y: z3.Implies(INVM(w, M, x, y), z3.Implies(w.hasfeat(w.subst(c, M), g), z3.Or(w.hasfeat(c, g), w.hasfeat(x, g), w.hasfeat(y, g)))),
         params=[('M', FM), ('g', w.Feat), ('x', w.Cat), ('y', w.Cat)],
         def_hyps=lambda w, c, M, g, x, y: [z3.Implies(INVM(w, M, x, y), uc.inv_m(w, M, x, y)(w.acc('Atom', 'feature')(c)))])
+    out['head_atom_is_atom'] = Lemma('head_atom_is_atom', lambda w, c: w.recog('Atom')(w.head_atom(c)))
+    out['nargs_nonneg'] = Lemma('nargs_nonneg', lambda w, c: w.nargs(c) >= 0)
     out['subst_identity'] = Lemma(
         'subst_identity', lambda w, c, M: z3.Implies(IDM(w, M), w.subst(c, M) == c), params=[('M', FM)],
         def_hyps=lambda w, c, M: [z3.Implies(IDM(w, M), idm_at(w, M, w.acc('Atom', 'feature')(c)))])
@@ -504,3 +506,140 @@ class SeenSet:
 
     def is_none(self, I):
         return False
+
+
+# ------------------------------------------------------------------------------ unary rules
+class UnaryTable:
+    """an arbitrary Dict[Category, List[Category]]: membership is an uninterpreted predicate, the value a list of
+    unknown length whose iteration is handled by the map-loop rule (one arbitrary element)"""
+    def __init__(self, w):
+        self.w = w
+        self.queries = []
+        self.lookups = []
+
+    def contains(self, I, item, node):
+        if not (isinstance(item, Z) and I.sort_name(item) == 'Cat'):
+            raise CheckerError('unary_rules queried with a non-category')
+        p = z3.Function('InUnary', self.w.Cat, z3.BoolSort())(item.e)
+        d = I.branch(p, node)
+        self.queries.append((item.e, d))
+        return d
+
+    def getitem(self, I, k, node):
+        if not (isinstance(k, Z) and I.sort_name(k) == 'Cat'):
+            raise CheckerError('unary_rules indexed with a non-category')
+        known = [d for e, d in self.queries if e.eq(k.e)]
+        if not known:
+            # dict[k] without a preceding membership test: KeyError when absent
+            if not I.branch(z3.Function('InUnary', self.w.Cat, z3.BoolSort())(k.e), node):
+                raise PyRaise('KeyError', 'category not in unary_rules', node)
+        elif known[-1] is False:
+            raise PyRaise('KeyError', 'category not in unary_rules', node)
+        t = TargetList(k.e)
+        self.lookups.append(t)
+        return t
+
+    def getattr(self, I, name, node):
+        if name == 'get':
+            tbl = self
+
+            class _Get:
+                def call(self_, I2, args, kwargs, node2):
+                    if tbl.contains(I2, args[0], node2):
+                        return tbl.getitem(I2, args[0], node2)
+                    return args[1] if len(args) > 1 else None
+            return _Get()
+        raise CheckerError(f'dict.{name} on the unary table is not modelled')
+
+
+class TargetList:
+    """unary_rules[x]: iterated by the map-loop rule"""
+    def __init__(self, key):
+        self.key = key
+        self.iteration = None
+
+    def for_loop(self, I, st, env, module, qual):
+        if self.iteration is not None or st.orelse:
+            raise CheckerError('the target list is iterated more than once / for-else')
+        names = [n for n in env.vars if isinstance(env.vars[n], list)]
+        before = {n: list(env.vars[n]) for n in names}
+        e = z3.Const('target', I.w.Cat)
+        I.assign(st.target, Z(e), env, module)
+        I.exec_block(st.body, env, module, qual)
+        after = {n: list(env.vars[n]) for n in names if isinstance(env.vars.get(n), list)}
+        changed = [n for n in before if before[n] != after.get(n)]
+        self.iteration = dict(elem=e, before=before, after=after, changed=changed)
+        for n in changed:
+            # the list now stands for  before ++ map(template, targets)
+            env.vars[n] = MappedList(before[n], after[n][len(before[n]):], self, after[n][:len(before[n])] == before[n])
+
+
+class MappedList(list):
+    def __init__(self, prefix, appended, targets, wellformed):
+        list.__init__(self)
+        self.prefix, self.appended, self.targets, self.wellformed = prefix, appended, targets, wellformed
+
+
+class ApplyUnary(Contract):
+    def __init__(self, rel, lang):
+        self.rel, self.qualname, self.lang = rel, 'apply_unary_rules', lang
+
+    def cases(self, I):
+        w = I.w
+
+        def build(I):
+            x = z3.Const('x', w.Cat)
+            self._tbl = UnaryTable(w)
+            assumes = [w.wf(x), w.recog('Atom')(w.head_atom(x)), w.nargs(x) >= 0]     # lemmas head_atom_is_atom, nargs_nonneg
+            if self.lang == 'ja':
+                assumes.append(w.recog('TernaryFeature')(w.acc('Atom', 'feature')(head_atom_term(w, x))))
+            return [Z(x), self._tbl], {}, assumes, dict(x=x)
+        yield Case('any-table', build)
+
+    def post(self, I, case, args, result):
+        w = I.w
+        x = args[0].e
+        tbl = self._tbl
+        member = [d for e, d in tbl.queries if e.eq(x)]
+        if not tbl.lookups:
+            # nothing for categories that are not in the table
+            return z3.BoolVal(isinstance(result, list) and not isinstance(result, MappedList) and len(result) == 0 and (not member or member[-1] is False))
+        if not (isinstance(result, MappedList) and len(tbl.lookups) == 1 and tbl.lookups[0].key.eq(x)):
+            return z3.BoolVal(False)
+        if not (result.wellformed and result.prefix == [] and len(result.appended) == 1 and result.targets is tbl.lookups[0]):
+            return z3.BoolVal(False)
+        ok, rcat, label, head = decode_result(I, result.appended[0])
+        if not ok:
+            return z3.BoolVal(False)
+        e = tbl.lookups[0].iteration['elem']
+        conj = [rcat == e]          # exactly the configured targets, in order (map over the list)
+        if self.lang == 'ja':
+            conj.append(ja_unary_label(w, x, label))
+        return z3.And(*conj)
+
+
+def head_atom_term(w, x):
+    """x.arg(0): the innermost result category (leftmost atom of the functor spine)"""
+    return w.head_atom(x)
+
+
+def ja_unary_label(w, x, label):
+    """statement of C04: the label is determined by the mod value of the first-argument feature and the number of missing
+    arguments: adn: 0 -> ADNext, 1 -> ADNint; adv: 0/1/2 -> ADV0/ADV1/ADV2 (larger arities are left unspecified);
+    the two label fields coincide"""
+    T = 'TernaryFeature'
+    f = w.acc('Atom', 'feature')(head_atom_term(w, x))
+    def has(k, v):
+        return z3.Or(*[z3.And(w.acc(T, f'kv{i}_0')(f) == z3.StringVal(k), w.acc(T, f'kv{i}_1')(f) == z3.StringVal(v)) for i in (1, 2, 3)])
+    n = w.nargs(x)
+    adn, adv = has('mod', 'adn'), z3.And(z3.Not(has('mod', 'adn')), has('mod', 'adv'))
+    ls, sym = label
+    want = lambda name: z3.BoolVal(ls == name and sym == name)
+    return z3.And(z3.BoolVal(ls == sym),
+                  z3.Implies(z3.And(adn, n == 0), want('ADNext')), z3.Implies(z3.And(adn, n == 1), want('ADNint')),
+                  z3.Implies(z3.And(adv, n == 0), want('ADV0')), z3.Implies(z3.And(adv, n == 1), want('ADV1')),
+                  z3.Implies(z3.And(adv, n == 2), want('ADV2')))
+
+
+def ja_completeness():
+    return []
